@@ -68,16 +68,37 @@ VerbatimEolExplains(doc, bytes) ==
     LET rv == RdFileV(bytes, TRUE) IN
     rv.ok /\ BadObjects(doc, rv) = {} /\ ExtraInView(doc, rv) = {} /\ ExtraInDoc(doc, rv) = {} /\ TrailerMatches(doc, rv)
 
+\* Classifier, per differing object: why does the loaded object differ from the file's view?
+\*   "lit-eol"                    it equals the reading with EOL normalisation in literal strings off
+\*   "stale.<old>.<new>"          it equals an OLDER definition of the same number (old/new stored plain |
+\*                                objstm | objstm-same = same container number)
+\*   "other"                      anything else (kinds tells which leaf kinds differ)
+WhyObject(o, rd, rv) ==
+    LET n == o.num
+        h == IF n \in DOMAIN rd.hist THEN rd.hist[n] ELSE <<>>
+        olds == {j \in 1..(Len(h) - 1) : Matches(o.val, h[j].val)}
+        w(e) == IF e.where = 0 THEN "plain" ELSE "objstm"
+    IN IF rv.ok /\ Has(rv.view, n) /\ rv.view[n].gen = o.gen /\ Matches(o.val, rv.view[n].val) THEN "lit-eol"
+       ELSE IF olds # {} THEN
+            LET j == CHOOSE x \in olds : \A y \in olds : y <= x
+                new == h[Len(h)]
+            IN "stale." \o w(h[j]) \o "." \o (IF h[j].where # 0 /\ h[j].where = new.where THEN "objstm-same" ELSE w(new))
+       ELSE "other"
+
+WhyObjects(doc, rd, bytes) ==
+    LET rv == RdFileV(bytes, TRUE) IN
+    {[num |-> doc.objs[i].num, why |-> WhyObject(doc.objs[i], rd, rv),
+      kinds |-> IF Has(rd.view, doc.objs[i].num) /\ rd.view[doc.objs[i].num].gen = doc.objs[i].gen
+                THEN DiffKinds(doc.objs[i].val, rd.view[doc.objs[i].num].val) ELSE {"generation"}]
+     : i \in {i \in 1..Len(doc.objs) : doc.objs[i].num \in BadObjects(doc, rd)}}
+
 \* verdict of a Load of `bytes`, whose strict reading is rd
 JudgeLoad(doc, res, rd, bytes) ==
     IF res # "ok" THEN [v |-> "load-failed", res |-> res]
     ELSE IF rd.version # doc.version THEN [v |-> "load-version"]
     ELSE IF ExtraInView(doc, rd) # {} THEN [v |-> "load-object-missing", nums |-> ExtraInView(doc, rd)]
     ELSE IF BadObjects(doc, rd) # {} THEN
-        [v |-> "load-object-differs", nums |-> BadObjects(doc, rd), verbatim |-> VerbatimEolExplains(doc, bytes),
-         kinds |-> UNION {IF rd.view[doc.objs[i].num].gen # doc.objs[i].gen THEN {"generation"}
-                          ELSE DiffKinds(doc.objs[i].val, rd.view[doc.objs[i].num].val) :
-                          i \in {i \in 1..Len(doc.objs) : doc.objs[i].num \in BadObjects(doc, rd)}}]
+        [v |-> "load-object-differs", nums |-> BadObjects(doc, rd), why |-> WhyObjects(doc, rd, bytes)]
     ELSE IF ExtraInDoc(doc, rd) # {} THEN [v |-> "load-extra-object", nums |-> ExtraInDoc(doc, rd)]
     ELSE IF ~TrailerMatches(doc, rd) THEN
         [v |-> "load-trailer-differs", verbatim |-> VerbatimEolExplains(doc, bytes),
@@ -123,4 +144,26 @@ JudgeRoundTrip(orig, loaded) ==
                  /\ \A key \in DOMAIN orig.trailer \ BookKeys : DocMatches(orig.trailer[key], loaded.trailer[key]))
             THEN [v |-> "rt-trailer-differs"]
        ELSE [v |-> "ok"]
+
+-----------------------------------------------------------------------------
+(* C07: saving an incremental document.  prevrd / prevbytes: strict reading and bytes of the file   *)
+(* the IncrementalDocument was loaded from; newdoc: the projected new_document given to save;       *)
+(* bytes: what save produced; prevBefore / prevAfter: projection of get_prev_documents() around it. *)
+JudgeSaveInc(newdoc, res, prevrd, prevbytes, bytes, prevBefore, prevAfter) ==
+    IF res # "ok" THEN [v |-> "saveinc-failed", res |-> res]
+    ELSE IF ~IsPrefixOf(prevbytes, bytes) THEN [v |-> "saveinc-prefix-not-kept"]
+    ELSE IF prevBefore # prevAfter THEN [v |-> "saveinc-prev-view-modified"]
+    ELSE LET rd == RdFile(bytes) IN
+    IF ~rd.ok THEN [v |-> "saveinc-file-invalid", err |-> rd.err]
+    ELSE IF rd.nrevs # prevrd.nrevs + 1 THEN [v |-> "saveinc-not-one-new-revision"]
+    ELSE LET newnums == {newdoc.objs[i].num : i \in UserObjs(newdoc)}
+             \* objects defined by the appended revision: those whose history grew
+             grew == {n \in DOMAIN rd.hist : n \notin DOMAIN prevrd.hist \/ Len(rd.hist[n]) > Len(prevrd.hist[n])}
+         IN
+         IF BadObjects(newdoc, rd) # {} THEN [v |-> "saveinc-object-differs", nums |-> BadObjects(newdoc, rd)]
+         ELSE IF (grew \ rd.xrefobjs) # newnums THEN [v |-> "saveinc-tail-not-exactly-new-objects", nums |-> ((grew \ rd.xrefobjs) \ newnums) \cup (newnums \ grew)]
+         ELSE IF \E n \in DOMAIN prevrd.view \ newnums : ~Has(rd.view, n) \/ rd.view[n] # prevrd.view[n]
+              THEN [v |-> "saveinc-untouched-object-changed"]
+         ELSE IF ~TrailerMatches(newdoc, rd) THEN [v |-> "saveinc-trailer-differs"]
+         ELSE [v |-> "ok"]
 =============================================================================
